@@ -1,8 +1,8 @@
 (** Property C10 — ST-MOC algebra, folds and lookups follow point-set semantics.
     Statements only. *)
-From Coq Require Import List NArith.
+From Coq Require Import List NArith Bool.
 From MOC.Base Require Import RangeSet.
-From MOC.Model Require Import Qty Ops1D Query ST.
+From MOC.Model Require Import Qty Ops1D Query ST Sweep2D Merge2D.
 Import ListNotations.
 Open Scope N_scope.
 
@@ -42,8 +42,43 @@ Example C10_nonvacuous :
   pts_opb OMinus 1000 [([(0, 2)], [(0, 16)]); ([(2, 4)], [(0, 8)]); ([(6, 8)], [(16, 32)])] A [([(2, 6)], [(8, 32)])] = true.
 Proof. repeat split; vm_compute; reflexivity. Qed.
 
+(** the binary operations of the range-2D path AS WRITTEN (Ranges2D::merge: sweep over the bounds of
+    both operands with the parity of the indices, operator evaluated on (in_t1, in_t2, current
+    coverages), two output vectors, final zip / drop of empty time ranges / fusion) with the three
+    operators of the store (1-D union, intersection and difference being the eager functions of
+    src/ranges/mod.rs, see C01) cover exactly the union / intersection / difference of the operands'
+    (time, space) point sets; the result's entries are non-empty, canonical, increasing and disjoint
+    in time, and never fusable.  General form: any operator op whose value at (in1, in2, s1, s2)
+    covers x iff F (in1 && s1 covers x) (in2 && s2 covers x), with F false false = false. *)
+Theorem C10_range2d_merge_as_written : forall op F, F false false = false ->
+  (forall in1 in2 s1 s2 x, Canon s1 -> Canon s2 -> covb (optr (op in1 in2 s1 s2)) x = F (in1 && covb s1 x) (in2 && covb s2 x)) ->
+  (forall in1 in2 s1 s2, Canon s1 -> Canon s2 -> Canon (optr (op in1 in2 s1 s2))) ->
+  forall A B, tchain 0 A -> tchain 0 B ->
+  (forall t x, covE (merge2 op A B) t x <-> F (covEb A t x) (covEb B t x) = true) /\
+  tchain 0 (merge2 op A B) /\ nofuse (merge2 op A B).
+Proof. exact merge2_spec. Qed.
+
+Theorem C10_store_union : forall A B, tchain 0 A -> tchain 0 B ->
+  (forall t x, covE (merge2 op_union A B) t x <-> covE A t x \/ covE B t x) /\
+  tchain 0 (merge2 op_union A B) /\ nofuse (merge2 op_union A B).
+Proof. exact st_union_spec. Qed.
+
+Theorem C10_store_intersection : forall A B, tchain 0 A -> tchain 0 B ->
+  (forall t x, covE (merge2 op_inter A B) t x <-> covE A t x /\ covE B t x) /\
+  tchain 0 (merge2 op_inter A B) /\ nofuse (merge2 op_inter A B).
+Proof. exact st_inter_spec. Qed.
+
+Theorem C10_store_difference : forall A B, tchain 0 A -> tchain 0 B ->
+  (forall t x, covE (merge2 op_diff A B) t x <-> covE A t x /\ ~ covE B t x) /\
+  tchain 0 (merge2 op_diff A B) /\ nofuse (merge2 op_diff A B).
+Proof. exact st_diff_spec. Qed.
+
 Print Assumptions C10_algebra_checker_exact.
 Print Assumptions C10_result_shape_checker_exact.
 Print Assumptions C10_lookup.
 Print Assumptions C10_tfold.
 Print Assumptions C10_sfold.
+Print Assumptions C10_range2d_merge_as_written.
+Print Assumptions C10_store_union.
+Print Assumptions C10_store_intersection.
+Print Assumptions C10_store_difference.
